@@ -1152,7 +1152,10 @@ func (se *stanzaEncoder) EncodeToken(t xml.Token) error {
 	case xml.StartElement:
 		se.depth++
 		// Add required attributes if missing:
-		if se.depth == 1 && isStanzaEmptySpace(tok.Name) {
+		// A stanza is also an element qualified explicitly by the content
+		// namespace of this stream, whatever that is (eg. jabber:component:accept
+		// on a component connection).
+		if se.depth == 1 && (isStanzaEmptySpace(tok.Name) || (se.ns != "" && stanza.Is(tok.Name, se.ns))) {
 			if tok.Name.Space == "" {
 				tok.Name.Space = se.ns
 			}
